@@ -118,6 +118,26 @@ func fineTwoWinners(name string) *Scenario {
 	return s
 }
 
+// fineCancelStop: the context passed to Start is cancelled and Stop / StopWithContext is
+// called right behind it (`cancel(); election.Stop()`): the stop call and the library's
+// clean-up for the ended run context race for the election mutex.
+func fineCancelStop(name string, stop Item) *Scenario {
+	s := K1(&Scenario{Name: name})
+	s.Insts = insts("A")
+	s.Script = starts("A")
+	stop.Actor, stop.Inst, stop.At, stop.Manual = "life2", "A", time.Hour, true
+	s.Script = append(s.Script,
+		Item{At: time.Hour, Actor: "life1", Do: "cancelctx", Inst: "A", Manual: true},
+		stop)
+	s.FineAt = "ok:A.hb.Update#1"
+	s.FineFire = []int{1, 2}
+	s.FinePts = 500
+	s.Horizon = 3 * s.H
+	s.LatencyBound = s.H/2 - ms
+	s.MaxSteps = 3000
+	return s
+}
+
 // fineFailover: B wins the election after A's graceful stop; the window starts when B's
 // winning Create is answered, so that late / duplicated watch notifications about A's
 // record (coarse events, available as alternatives inside the window) interleave with
@@ -194,7 +214,9 @@ func finePlan(prop, tier string) []PlanItem {
 		late.Horizon += 600 * ms
 		items = append(items, PlanItem{late, p})
 	case "C08", "C19":
-		items = append(items, PlanItem{fineTwoWinners("fine/two-winners-of-one-instance"), p})
+		items = append(items, PlanItem{fineTwoWinners("fine/two-winners-of-one-instance"), p},
+			PlanItem{fineCancelStop("fine/cancelctx-then-stop", Item{Do: "stop"}), p},
+			PlanItem{fineCancelStop("fine/cancelctx-then-stopctx", Item{Do: "stopctx", DeleteKey: true}), p})
 		if prop == "C19" {
 			// a demotion that needs no store operation (ValidateTokenOrDemote with an already
 			// cancelled context) racing with the promotion and its callback goroutine
